@@ -550,6 +550,33 @@ pub fn generate(seed: u64, opts: &GenOptions) -> Scenario {
                 _ => {}
             }
         }
+        // rare shapes: self-transfer, value to a stock precompile address, EIP-2930 access lists
+        match g.rng.below(24) {
+            0 if kind == 0 => {
+                tx.to = Some(caller);
+                tx.label = "self-transfer".into();
+            }
+            1 if kind == 0 => {
+                tx.to = Some(addr(*g.rng.pick(&[1u64, 2, 3, 4, 9])));
+                tx.data = Bytes::from(vec![0x11u8; g.rng.below(40) as usize]);
+                tx.gas_limit = 60_000 + g.rng.below(100_000);
+                tx.label = "transfer-to-stock-precompile".into();
+            }
+            2 | 3 | 4 if spec >= SpecId::BERLIN => {
+                let target = tx.to.unwrap_or(caller);
+                let mut list = vec![(target, (0..g.rng.below(3)).map(|k| B256::from(U256::from(k * 100))).collect::<Vec<_>>())];
+                if g.rng.chance(1, 2) {
+                    list.push((g.any_addr(), vec![B256::from(U256::from(g.rng.below(3)))]));
+                }
+                tx.access_list = list;
+                if tx.tx_type == 0 {
+                    tx.tx_type = 1;
+                    tx.chain_id = Some(1);
+                }
+                tx.label.push_str("+access-list");
+            }
+            _ => {}
+        }
         // random transactions are interleaved at random positions among the template ones
         let at = g.rng.below(txs.len() as u64 + 1) as usize;
         senders.insert(at, sender_idx);
@@ -591,7 +618,31 @@ pub fn generate(seed: u64, opts: &GenOptions) -> Scenario {
         if g.rng.below(100) >= invalid_rate {
             continue;
         }
-        match g.rng.below(9) {
+        match g.rng.below(11) {
+            9 => {
+                // wrong chain id (only checked when the transaction carries one)
+                tx.chain_id = Some(2 + g.rng.below(3));
+                tx.label.push_str("+wrong-chain-id");
+                nonce_shift[sender_idx] -= 1;
+            }
+            10 => {
+                // a transaction type the selected hardfork does not know (or a typed transaction whose
+                // fee fields are inconsistent on a fork that does)
+                if spec < SpecId::LONDON {
+                    tx.tx_type = 2;
+                    tx.priority_fee = Some(0);
+                } else if spec < SpecId::PRAGUE {
+                    tx.tx_type = 4;
+                    tx.priority_fee = tx.priority_fee.or(Some(0));
+                } else {
+                    tx.tx_type = 1;
+                }
+                tx.chain_id = Some(1);
+                tx.label.push_str("+foreign-tx-type");
+                if spec < SpecId::PRAGUE {
+                    nonce_shift[sender_idx] -= 1;
+                }
+            }
             0 => {
                 tx.nonce += 1 + g.rng.below(2);
                 tx.label.push_str("+nonce-too-high");
